@@ -66,6 +66,7 @@ type c09Hist struct {
 	crashed     bool // a crash-restart happened earlier in this live run
 	cutCh       chan *c09Cut
 	diverged    atomic.Bool
+	fsMu        sync.RWMutex // see c09Guard
 }
 
 var c09ViolMu sync.Mutex
@@ -104,7 +105,7 @@ func (h *c09Hist) takeCuts(when, event string, pcts []int) {
 	clones := make([]*c09Cut, 0, len(pcts))
 	for _, pct := range pcts {
 		cfg := vfs.CrashCloneCfg{UnsyncedDataPercent: pct, RNG: h.cutRng}
-		clones = append(clones, &c09Cut{fs: h.mem.CrashClone(cfg), pct: pct, event: event, when: when, dirty: h.dirty})
+		clones = append(clones, &c09Cut{fs: c09Clone(h.mem, &h.fsMu, cfg), pct: pct, event: event, when: when, dirty: h.dirty})
 	}
 	b := h.snapshot(h.begun)
 	var fullFiles int
@@ -287,7 +288,7 @@ func (h *c09Hist) openLive(root string, mem *vfs.MemFS) (*c09Store, error) {
 	h.mem = mem
 	h.dirty, h.syncPending = false, false
 	h.mu.Unlock()
-	c09TheMux.register(root, errorfs.Wrap(mem, h.hook(gen)))
+	c09TheMux.register(root, errorfs.Wrap(c09Guard{FS: mem, mu: &h.fsMu}, h.hook(gen)))
 	s, err := c09OpenStore(root, h.plan.chans)
 	if err == nil {
 		s.configure(h.plan)
@@ -349,7 +350,7 @@ func (h *c09Hist) live() {
 						// crash-restart: continue the history on a power-loss image
 						// taken at a quiescent point (everything acknowledged)
 						h.mu.Lock()
-						cl := h.mem.CrashClone(vfs.CrashCloneCfg{UnsyncedDataPercent: []int{0, 0, 100}[rng.IntN(3)], RNG: h.cutRng})
+						cl := c09Clone(h.mem, &h.fsMu, vfs.CrashCloneCfg{UnsyncedDataPercent: []int{0, 0, 100}[rng.IntN(3)], RNG: h.cutRng})
 						h.crashed = true
 						h.mu.Unlock()
 						old := store
@@ -884,7 +885,7 @@ func (h *c09Hist) checkReopened(mem *vfs.MemFS, tag string, kindOf func(c int) s
 	rng := rand.New(rand.NewPCG(5, 6))
 	for _, pct := range []int{0, 100} {
 		root := fmt.Sprintf("h%dq%s%d", h.idx, tag, pct)
-		c09TheMux.register(root, mem.CrashClone(vfs.CrashCloneCfg{UnsyncedDataPercent: pct, RNG: rng}))
+		c09TheMux.register(root, c09Clone(mem, &h.fsMu, vfs.CrashCloneCfg{UnsyncedDataPercent: pct, RNG: rng}))
 		s, err := c09OpenStore(root, h.plan.chans)
 		if err != nil {
 			c09TheMux.unregister(root)
